@@ -18,8 +18,9 @@ theorem fromBE_be : ∀ (k n : Nat), fromBE (be k n) = n % 256 ^ k
     rw [h, Nat.pow_succ, Nat.mul_comm (256 ^ k) 256, Nat.mod_mul]
     omega
 
-theorem takeN_append (a rest : Bytes) : takeN a.length (a ++ rest) = some (a, rest) := by
-  simp [takeN]
+theorem takeN_append : ∀ (a rest : Bytes), takeN a.length (a ++ rest) = some (a, rest)
+  | [], rest => by simp [takeN]
+  | x :: xs, rest => by simp [takeN, takeN_append xs rest]
 
 theorem takeN_append' (a rest : Bytes) (k : Nat) (h : a.length = k) : takeN k (a ++ rest) = some (a, rest) := by
   subst h; exact takeN_append a rest
